@@ -177,8 +177,7 @@ def sweep(pid, tier, verif_seed, total, jobs, wall_cap, chunk):
                     merged["samples"].extend(r["samples"])
                 if time.time() - t0 < wall_cap and dead is None:
                     submit_next()
-                else:
-                    merged["truncated"] = True
+                # (whether runs were really left out is decided below: is anything left to submit?)
             if dead is not None:
                 for f in live:
                     f.cancel()
